@@ -55,6 +55,19 @@ def floor_options(a, dt, mult=1, span=0):
     return [k]
 
 
+def trunc_options(t, dt):
+    """Admissible values of int(t/dt) for t >= 0: floor of the exact quotient of the given floats; when that quotient lies
+    a few ulps BELOW an integer k (so that the rounded floating-point division lands on k while the exact floor is k-1)
+    both k-1 and k are admissible. Quotients that are exactly k, or a few ulps above k, give k under every evaluation."""
+    q = Fraction(float(t)) / Fraction(float(dt))
+    k = int(round(q))
+    if q == k:
+        return [k]
+    if abs(q - k) <= Fraction(AMB_ULPS * EPS) * max(1, abs(k)):
+        return [k] if q > k else sorted(set([max(k - 1, 0), k]))
+    return [int(q // 1)]
+
+
 def edge_options(x, dt, tau):
     """Admissible resolutions (first sample belongs to the record?, last sample belongs to the record?)."""
     kind, _ = quotient_kind(tau, dt, 2, len(x))
